@@ -838,16 +838,93 @@ def run_impl_calls(cases):
         if '_impl' in x:
             out.append(x.pop('_impl'))
             continue
-        P = OneProgram(x['src'], x['twin'], f'r{n}_{os.getpid()}')
+        primes = x.get('prime') or []             # a primed twin of the amplified run: decoy actions first (see twins() below)
+        tag = f'r{n}_{os.getpid()}'
+        F = {'flavour': x['flavour'], 'kind': x['kind']}
+        if 'recode' in primes:
+            prime_recode(x, F, tag)
+        P = OneProgram(x['src'], x['twin'], tag)
         try:
             for h in x.get('history', []):       # a scenario case: replay the calls that preceded it on a fresh module
                 apply_pre(P, h.get('pre'))
                 execute(P, {'flavour': h['flavour'], 'kind': h['kind']}, tuple(h['access']), h['pos'], h['kwv'], h['body'], h.get('ctxmode', 'full'))
             apply_pre(P, x.get('pre'))
-            F = {'flavour': x['flavour'], 'kind': x['kind']}
+            if 'scalars' in primes:
+                prime_scalars(P, F, x)
             out.append(execute(P, F, tuple(x['access']), x['pos'], x['kwv'], x['body'], x.get('ctxmode', 'full')))
         finally:
             P.close()
+    return out
+
+
+# ------------------------------------------------------------------ twins for the amplified run (core.amplified_run, props/_twins.py)
+
+_ROT = {'int': 'str', 'str': 'int', 'float': 'bytes', 'bool': 'bytes'}
+
+
+def rotate_annotations_src(src):
+    """the same program text with the class names in every `def` line exchanged (int <-> str, float / bool -> bytes): line structure,
+    bodies, names and defaults stay, so every function of the decoy has a `__code__` EQUAL to the original's (annotations are evaluated
+    by the enclosing scope, they are no part of the function's code object), the same `__qualname__`, and - loaded under the same module
+    name - the same `__module__`: one `def` executed twice with other annotations"""
+    lines = []
+    for line in src.split('\n'):
+        if re.match(r'\s*(async\s+)?def\s', line):
+            line = re.sub(r'\b(int|str|float|bool)\b', lambda m: _ROT[m.group(1)], line)
+        lines.append(line)
+    return '\n'.join(lines)
+
+
+def prime_recode(x, F, tag):
+    """decoy: the case's program with rotated annotations, loaded under the module name the real program is going to have, its callable
+    decorated (at import) and called with the case's arguments; whatever happens is ignored"""
+    src2 = rotate_annotations_src(x['src'])
+    if src2 == x['src']:
+        return
+    Pd = OneProgram.__new__(OneProgram)
+    Pd.dir = None
+    try:
+        Pd.__init__(src2, x['twin'], tag)
+    except BaseException:            # the decoy does not even import (e.g. its docstring check fails now): nothing to call
+        if Pd.dir:
+            shutil.rmtree(Pd.dir, ignore_errors=True)
+        for k in [k for k in sys.modules if k.startswith('genmod_') or k.startswith('gentwin_')]:
+            del sys.modules[k]
+        return
+    try:
+        execute(Pd, F, tuple(x['access']), x['pos'], x['kwv'], x['body'], x.get('ctxmode', 'full'))
+    except BaseException:
+        pass
+    finally:
+        Pd.close()
+
+
+def prime_scalars(P, F, x):
+    """decoy calls of the very callable of the case with every number moved to another numeric type (1 / True / 1.0 are equal and hash
+    alike); outcomes are ignored"""
+    for to in ('bool', 'int', 'float'):
+        pos2 = [K.twin_val_term(t, to) for t in x['pos']]
+        kw2 = [[k, K.twin_val_term(t, to)] for k, t in x['kwv']]
+        body2 = [x['body'][0], K.twin_val_term(x['body'][1], to)] if x['body'][0] == 'ret' else x['body']
+        if pos2 == x['pos'] and kw2 == x['kwv'] and body2 == x['body']:
+            continue
+        try:
+            execute(P, F, tuple(x['access']), pos2, kw2, body2, x.get('ctxmode', 'full'))
+        except BaseException:
+            pass
+
+
+def twins(case):
+    """primed twins of a call-layer case: the expected outcome is the one of the case itself (`c` unchanged)"""
+    if case.get('m') != 'calllayer':
+        return []
+    x = case['x']
+    out = []
+    if rotate_annotations_src(x['src']) != x['src']:
+        out.append(dict(case, x=dict(x, prime=['recode'])))
+    terms = list(x['pos']) + [t for _, t in x['kwv']] + ([x['body'][1]] if x['body'][0] == 'ret' else [])
+    if any(K.twin_val_term(t, to) != t for t in terms for to in ('bool', 'int', 'float')):
+        out.append(dict(case, x=dict(x, prime=['scalars'])))
     return out
 
 
